@@ -47,6 +47,12 @@ class Ctx:
             return ks[0]
         return ks
 
+    def write_entries(self):
+        """entry keys of the public write operations (RaftLogWriter methods + update_state)"""
+        ks = [k for k in self.prog.bodies if re.search(r"RaftLog<T> as api::raft_log_writer::RaftLogWriter<T>>::\w+$", k)]
+        ks += [k for k in self.prog.bodies if re.search(r"RaftLog::<T>::update_state$", k)]
+        return sorted(ks)
+
     def worker_entry(self):
         """the closure handed to thread::Builder::spawn (role discovery, no private names)."""
         found = []
